@@ -3,6 +3,7 @@
   hence holds after every history; no move sends an UnAssign for an address a live bound pod holds.
 -/
 import Galaxy.Lemmas.PluginBind
+import Galaxy.Lemmas.PluginAdmin
 
 namespace Galaxy.Plugin
 open Galaxy
@@ -13,7 +14,7 @@ theorem inv_init (c : Conf) : Inv (init c) := by
   have hnil : ∀ (id : String × String) (q : Pod), Tbl.get ([] : Pods) id = some q → False := by
     intro id q h; cases h
   have hlb : ∀ q, ¬ LiveBound ([] : Pods) q := fun q hq => hnil _ _ hq.1
-  refine ⟨⟨?_, ?_, ?_, ?_, ?_, ?_⟩, ⟨?_⟩, ?_, ?_, ?_, ?_, ?_, ?_, ?_, ?_⟩
+  refine ⟨⟨?_, ?_, ?_, ?_, ?_, ?_⟩, ⟨?_, ?_⟩, ?_, ?_, ?_, ?_, ?_, ?_, ?_, ?_⟩
   · intro _; rfl
   · intro _ _; rfl
   · intro _ r h; cases h
@@ -21,6 +22,7 @@ theorem inv_init (c : Conf) : Inv (init c) := by
   · exact List.nodup_nil
   · exact List.nodup_nil
   · intro q hq; exact absurd hq (hlb q)
+  · intro ip r h; cases h
   · intro id q h; exact (hnil id q h).elim
   · intro id1 _ q1 _ h; exact (hnil id1 q1 h).elim
   · intro id l h; cases h
@@ -42,6 +44,7 @@ theorem inv_step (s : State) (m : Move) (h : Inv s) (ha : assumed s m = true) : 
   | listerSync pods apps => exact inv_listerSync s pods apps h
   | dropEvent i => exact inv_dropEvent s i h
   | filter ns name nodes ch fault => exact inv_filter s ns name nodes ch fault h
+  | preempt ns name nodes ch fault => exact inv_preempt s ns name nodes ch fault h
   | bind ns name uid node ch f pf => exact inv_bind s ns name uid node ch f pf h ha
   | deliver i f pf => exact inv_deliver s i f pf h
   | resync order f pf => exact inv_resync s order f pf h
@@ -51,9 +54,16 @@ theorem inv_step (s : State) (m : Move) (h : Inv s) (ha : assumed s m = true) : 
     split
     · exact h
     · rename_i r0 _
-      exact (resyncOne_spec _ ip r0 (inv_withFaults s f pf h)).1.of_fields rfl rfl rfl rfl rfl rfl rfl rfl
+      split
+      · exact h
+      · rename_i hin
+        have hin' : inChecklist r0 = true := by simpa using hin
+        exact (resyncOne_spec _ ip r0 (inv_withFaults s f pf h)
+          (inChecklist_not_admin r0 hin')).1.of_fields rfl rfl rfl rfl rfl rfl rfl rfl
+  | adminReserve ip text policy => exact inv_adminReserve s ip text policy h
+  | adminUnreserve ip => exact inv_adminUnreserve s ip h
   | syncPodIPs f => exact inv_syncPodIPs s f h
-  | apiRelease ip k f pf => exact inv_apiRelease s ip k f pf h
+  | apiRelease ip k f pf => exact inv_apiRelease s ip k f pf h (assumed_apiRelease ha)
   | reload pools fault => exact inv_reload s pools fault h ha
   | restart => exact inv_restart s h
 
@@ -113,6 +123,27 @@ theorem filter_plog (s : State) (ns name : String) (nodes : List String) (ch : C
       · rename_i set _
         exact ((filterNodes_quiet set nodes [] (getSubnet s pod ch).1).2).trans key
 
+theorem preempt_plog (s : State) (ns name : String) (nodes : List String) (ch : Choice) :
+    (preempt s ns name nodes ch).1.plog = s.plog := by
+  unfold preempt
+  split
+  · rfl
+  · rename_i pod _
+    split
+    · rfl
+    · have key : (getSubnet s pod ch).1.plog = s.plog := by
+        rcases getSubnet_state s pod ch with e | ⟨resv, n, e⟩
+        · rw [e]
+        · rw [e]; unfold allocateDuringFilter
+          split
+          · exact allocateInSubnetWithKey_plog _ _ _ _ _ _
+          · exact allocateInSubnet_plog _ _ _ _ _
+      split
+      · rfl
+      · exact key
+      · rename_i set _
+        exact ((filterNodes_quiet set nodes [] (getSubnet s pod ch).1).2).trans key
+
 /-- the UnAssign requests a move sends are never for an address in a live bound pod's binding annotation -/
 theorem unassign_step (s : State) (m : Move) (h : Inv s) (ha : assumed s m = true) :
     UnassignsWithin s (step Facts.good s m).1 (NoLive s.pods) := by
@@ -137,6 +168,7 @@ theorem unassign_step (s : State) (m : Move) (h : Inv s) (ha : assumed s m = tru
     split <;> split <;> rfl
   | dropEvent i => apply UnassignsWithin.of_plog_eq; simp only [step]; split <;> rfl
   | filter ns name nodes ch fault => exact UnassignsWithin.of_plog_eq _ (filter_plog _ ns name nodes ch)
+  | preempt ns name nodes ch fault => exact UnassignsWithin.of_plog_eq _ (preempt_plog _ ns name nodes ch)
   | bind ns name uid node ch f pf =>
     have := (bind_spec (withFaults s f pf) ns name uid node ch (h0 f pf) (assumed_bind ha)).2.2
     exact this.mono (fun _ hf => hf.elim)
@@ -148,10 +180,19 @@ theorem unassign_step (s : State) (m : Move) (h : Inv s) (ha : assumed s m = tru
     split
     · exact UnassignsWithin.refl s _
     · rename_i r0 _
-      obtain ⟨l, hl, hp⟩ := (resyncOne_spec _ ip r0 (h0 f pf)).2.2
-      exact ⟨l, hl, hp⟩
+      split
+      · exact UnassignsWithin.refl s _
+      · rename_i hin
+        have hin' : inChecklist r0 = true := by simpa using hin
+        obtain ⟨l, hl, hp⟩ := (resyncOne_spec _ ip r0 (h0 f pf) (inChecklist_not_admin r0 hin')).2.2
+        exact ⟨l, hl, hp⟩
+  | adminReserve ip text policy =>
+    apply UnassignsWithin.of_plog_eq; simp only [step]; split
+    · rfl
+    · split <;> rfl
+  | adminUnreserve ip => apply UnassignsWithin.of_plog_eq; simp only [step]; split <;> rfl
   | syncPodIPs f => exact UnassignsWithin.of_plog_eq _ (syncPodIPs_spec _ (h0 f 0)).2.2
-  | apiRelease ip k f pf => exact (apiRelease_spec _ ip k (h0 f pf)).2.2
+  | apiRelease ip k f pf => exact (apiRelease_spec _ ip k (h0 f pf) (assumed_apiRelease ha)).2.2
   | reload pools fault =>
     exact UnassignsWithin.of_plog_eq _ (reload_spec (withFaults s fault 0) pools (h0 fault 0) (assumed_reload (s := s) ha)).2.2
   | restart =>
